@@ -218,6 +218,19 @@ def translate_relation(name):
         raise ParseError("no macro body for %s" % name)
     closure = mm.group(1) is not None
     body_src = find_macro_body(src, m.end() + mm.end())
+    # the function must consist of the macro invocation ONLY: any Rust statement before or after it
+    # (an early return, a shortcut) is behaviour the translated definition would not have
+    strip = lambda t: re.sub(r"//[^\n]*|/\*.*?\*/", "", t, flags=re.S).strip()
+    pre = src[m.end():m.end() + mm.start()]
+    brace = pre.find("{")
+    if brace < 0 or strip(pre[brace + 1:]) != "":
+        raise ParseError("%s: Rust code before the macro body: %r" % (name, strip(pre[brace + 1:])[:80]))
+    if "{" in pre[:brace] or ";" in pre[:brace]:
+        raise ParseError("%s: unexpected signature %r" % (name, pre[:brace][:80]))
+    post = src[m.end() + mm.end() + len(body_src) + 1:]
+    close = post.find("}")
+    if close < 0 or strip(post[:close]) not in ("", ";"):
+        raise ParseError("%s: Rust code after the macro body: %r" % (name, strip(post[:close if close >= 0 else 80])[:80]))
     p = P(tokenize(body_src))
     body = p.clause()
     if p.peek() is not None:
